@@ -269,6 +269,8 @@ def corpus():
     import glob
     import json
     import os
+    if os.environ.get("VERIF_NO_CORPUS"):
+        return []
     d = os.path.join(os.path.dirname(os.path.dirname(os.path.dirname(os.path.abspath(__file__)))), "corpus", "C14")
     return [json.load(open(f)) for f in sorted(glob.glob(os.path.join(d, "*.json")))]
 
